@@ -9,6 +9,7 @@ import (
 	"bytes"
 	"context"
 	"encoding/json"
+	"errors"
 	"fmt"
 	"io"
 	"os"
@@ -38,8 +39,10 @@ type Config struct {
 	Arm     []string `json:"arm,omitempty"` // yield sites at which arriving goroutines are parked
 	ChanCap int      `json:"chan_cap"`
 	NoTS    bool     `json:"no_ts"`
-	Stall   bool     `json:"stall,omitempty"` // nobody takes entered lines off the input channel until a "drain" action (no shell attached)
-	Steps   int      `json:"steps"`
+	// InsertSource: what the Ctrl+I source does in this run: "" works, "err" is unreadable, "empty" yields nothing
+	InsertSource string `json:"insert_source,omitempty"`
+	Stall        bool   `json:"stall,omitempty"` // nobody takes entered lines off the input channel until a "drain" action (no shell attached)
+	Steps        int    `json:"steps"`
 }
 
 // Action is one macro-step stimulus.
@@ -100,29 +103,30 @@ type sim struct {
 	plainSent  []tok
 	statusSent []tok
 
-	step       int
-	actions    []Action
-	script     []Action
-	scriptPos  int
-	replay     bool
-	invalid    bool
-	harnessErr string
-	found      []simkit.Found
-	trace      []string
-	stepObs    []string
-	faults     map[string]int64
-	probes     map[string]int64
-	nontrivial bool
-	typedLines []string
-	curLine    []byte
-	simNanos   int64
-	noJudge    bool // an exact tie with the un-mute instant happened: timing no longer judged
-	stepStart  int64
-	expectIch  []string
-	sentEOF    bool
-	lastAct    Action
-	stalled    bool
-	suppressed []tok // shell output known to have been suppressed
+	step        int
+	actions     []Action
+	script      []Action
+	scriptPos   int
+	replay      bool
+	invalid     bool
+	harnessErr  string
+	found       []simkit.Found
+	trace       []string
+	stepObs     []string
+	faults      map[string]int64
+	probes      map[string]int64
+	nontrivial  bool
+	typedLines  []string
+	curLine     []byte
+	simNanos    int64
+	noJudge     bool // an exact tie with the un-mute instant happened: timing no longer judged
+	stepStart   int64
+	expectIch   []string
+	sentEOF     bool
+	lastAct     Action
+	stalled     bool
+	insertModes []string
+	suppressed  []tok // shell output known to have been suppressed
 }
 
 type tok struct {
@@ -258,6 +262,13 @@ func (Engine) Run(t *testing.T, job *simkit.Job, rng *simkit.RNG, idx int64, c *
 	func() {
 		defer func() {
 			if r := recover(); r != nil && s.harnessErr == "" {
+				if strings.Contains(fmt.Sprint(r), "blocked goroutines remain") {
+					// goroutines of the shell that wait for something that will never
+					// come (an insert nobody lets go on): no operator-visible effect by
+					// itself, so not judged; visible effects are judged during the run
+					s.probes["goroutines_left_blocked_at_end"]++
+					return
+				}
 				s.harnessErr = fmt.Sprintf("panic around bubble: %v\n%s", r, debug.Stack())
 			}
 		}()
@@ -337,6 +348,12 @@ func (s *sim) main() {
 		s.mu.Lock()
 		s.insertN++
 		s.mu.Unlock()
+		switch s.cfg.InsertSource {
+		case "err":
+			return nil, errors.New("insert source unreadable (injected)")
+		case "empty":
+			return nil, nil
+		}
 		return s.payload, nil
 	}, "payload")
 	if err != nil {
@@ -652,7 +669,13 @@ func (s *sim) apply(a Action) {
 				s.expectIch = append(s.expectIch, string(s.curLine))
 				s.curLine = nil
 			case 0x09:
-				s.expectIch = append(s.expectIch, string(s.payload))
+				// nothing is inserted if the source is unreadable or empty in this
+				// run, and nothing else is held up by that
+				if s.cfg.InsertSource == "" {
+					s.expectIch = append(s.expectIch, string(s.payload))
+				} else {
+					s.faults["insert_source_"+s.cfg.InsertSource]++
+				}
 				s.probes["ctrl_i"]++
 			case 0x0a:
 				s.probes["ctrl_j"]++
